@@ -1,3 +1,175 @@
-// unit ffi_utils: harnesses for c2pa_c_ffi/src/cimpl/utils.rs (included by the cfg(kani) hook at the end of that file)
+// unit ffi_utils: c2pa_c_ffi/src/cimpl/utils.rs (included by the cfg(kani) hook at the end of that file)
+// C31 (handle registry only, Engine B): PointerRegistry::{track, validate, untrack, free} against the model
+//   view: Map<address, (type, cleanup id)>, runs: cleanup id -> number of times it ran
+//   validate  read-only; Ok <=> ptr != 0 and view[ptr].type == t
+//   untrack   Ok <=> ptr != 0 and view[ptr].type == t; removes exactly ptr; never runs a cleanup; Err changes nothing
+//   free(0)   Ok, nothing changes;  free(p) tracked: Ok, runs p's cleanup exactly once, removes exactly p;
+//             free(p) untracked (never tracked, already freed, untracked): Err, nothing changes, nothing runs
+//   track(0)  ignored; track(p, t, c): view[p] = (t, c) (an older entry is replaced and its cleanup never runs)
 #[allow(unused_imports)]
 use super::*;
+
+#[cfg(test)]
+mod c31 {
+    use super::*;
+    use std::sync::atomic::{AtomicUsize, Ordering};
+    use std::sync::Arc;
+
+    struct T1;
+    struct T2;
+
+    #[derive(Clone, Copy, Debug, PartialEq)]
+    enum Op {
+        Track(usize, u8),
+        Validate(usize, u8),
+        Untrack(usize, u8),
+        Free(usize),
+    }
+
+    fn tid(t: u8) -> TypeId {
+        if t == 0 { TypeId::of::<T1>() } else { TypeId::of::<T2>() }
+    }
+
+    fn all_ops() -> Vec<Op> {
+        let mut v = Vec::new();
+        for a in 0..=3usize {
+            // address 0 is NULL; 1..=3 stand for three distinct non-null addresses
+            let p = a * 0x1000;
+            for t in 0..2u8 {
+                v.push(Op::Track(p, t));
+                v.push(Op::Validate(p, t));
+                v.push(Op::Untrack(p, t));
+            }
+            v.push(Op::Free(p));
+        }
+        v
+    }
+
+    // runs one sequence on a fresh real registry next to the model; returns the first violated clause
+    fn run_seq(seq: &[Op]) -> Option<&'static str> {
+        let reg = PointerRegistry::new();
+        let mut model: std::collections::BTreeMap<usize, (u8, usize)> = std::collections::BTreeMap::new();
+        let mut counters: Vec<Arc<AtomicUsize>> = Vec::new();
+        let mut expected_runs: Vec<usize> = Vec::new();
+        for op in seq {
+            match *op {
+                Op::Track(p, t) => {
+                    let c = Arc::new(AtomicUsize::new(0));
+                    let c2 = Arc::clone(&c);
+                    counters.push(c);
+                    expected_runs.push(0);
+                    let id = counters.len() - 1;
+                    reg.track(p, tid(t), Box::new(move || {
+                        c2.fetch_add(1, Ordering::SeqCst);
+                    }));
+                    if p != 0 {
+                        model.insert(p, (t, id));
+                    }
+                }
+                Op::Validate(p, t) => {
+                    let want = p != 0 && model.get(&p).map(|e| e.0) == Some(t);
+                    if reg.validate(p, tid(t)).is_ok() != want {
+                        return Some("validate_result");
+                    }
+                }
+                Op::Untrack(p, t) => {
+                    let want = p != 0 && model.get(&p).map(|e| e.0) == Some(t);
+                    if reg.untrack(p, tid(t)).is_ok() != want {
+                        return Some("untrack_result");
+                    }
+                    if want {
+                        model.remove(&p);
+                    }
+                }
+                Op::Free(p) => {
+                    let want = p == 0 || model.contains_key(&p);
+                    if reg.free(p).is_ok() != want {
+                        return Some(if want { "free_of_live_handle_fails" } else { "free_of_dead_handle_succeeds" });
+                    }
+                    if let Some((_, id)) = model.remove(&p) {
+                        expected_runs[id] += 1;
+                    }
+                }
+            }
+            // frame + exactly-once: the whole view and every cleanup counter agree with the model after every step
+            for a in 1..=3usize {
+                let p = a * 0x1000;
+                for t in 0..2u8 {
+                    let want = model.get(&p).map(|e| e.0) == Some(t);
+                    if reg.validate(p, tid(t)).is_ok() != want {
+                        return Some("view_differs_from_model");
+                    }
+                }
+            }
+            for (id, c) in counters.iter().enumerate() {
+                let r = c.load(Ordering::SeqCst);
+                if r != expected_runs[id] {
+                    return Some(if r > expected_runs[id] { "cleanup_ran_too_often" } else { "cleanup_not_run" });
+                }
+            }
+        }
+        // empty the registry so that Drop does not print its leak warning for every sequence
+        for a in 1..=3usize {
+            let _ = reg.untrack(a * 0x1000, tid(0));
+            let _ = reg.untrack(a * 0x1000, tid(1));
+        }
+        None
+    }
+
+    #[test]
+    fn c31_registry_matches_model_all_short_sequences() {
+        let thorough = std::env::var("VERIF_B_TIER").map(|t| t == "thorough").unwrap_or(false);
+        let ops = all_ops();
+        let max_len = if thorough { 5 } else { 4 };
+        let mut evals = 0usize;
+        let mut nontrivial = 0usize;
+        let mut counts: std::collections::BTreeMap<String, usize> = std::collections::BTreeMap::new();
+        let mut idx = vec![0usize; max_len];
+        for len in 1..=max_len {
+            for i in idx.iter_mut() {
+                *i = 0;
+            }
+            loop {
+                let seq: Vec<Op> = idx[..len].iter().map(|i| ops[*i]).collect();
+                evals += 1;
+                if seq.iter().any(|o| matches!(o, Op::Free(p) if *p != 0)) && seq.iter().any(|o| matches!(o, Op::Track(p, _) if *p != 0)) {
+                    nontrivial += 1;
+                }
+                let r = std::panic::catch_unwind(|| run_seq(&seq));
+                let key = match r {
+                    Err(_) => Some("registry.panic"),
+                    Ok(Some(k)) => Some(k),
+                    Ok(None) => None,
+                };
+                if let Some(k) = key {
+                    let c = counts.entry(format!("registry.{k}")).or_insert(0);
+                    *c += 1;
+                    if *c <= 3 {
+                        println!("VERIF-B-VIOLATION key=registry.{k} input={seq:?}");
+                    }
+                }
+                // next sequence
+                let mut j = len;
+                let mut done = false;
+                loop {
+                    if j == 0 {
+                        done = true;
+                        break;
+                    }
+                    j -= 1;
+                    idx[j] += 1;
+                    if idx[j] < ops.len() {
+                        break;
+                    }
+                    idx[j] = 0;
+                }
+                if done {
+                    break;
+                }
+            }
+        }
+        println!("VERIF-B-SAMPLE [Track(0x1000,T1), Free(0x1000), Free(0x1000)] -> second free is Err, cleanup ran once");
+        println!("VERIF-B-SAMPLE violation classes this run: {:?}", counts);
+        println!("VERIF-B unit=ffi_utils test=c31_registry_matches_model_all_short_sequences evaluations={evals} nontrivial={nontrivial} exhaustive=true domain=every sequence of 1..={max_len} operations over {{track,validate,untrack}} x 4 addresses (NULL + 3) x 2 types and free x 4 addresses, from the empty registry");
+    }
+}
